@@ -11,6 +11,17 @@ use crate::splitmix;
 pub struct Counting {
     inner: StdRng,
     pub words: u64,
+    /// rolling hash of the sequence of entry points used (next_u32 / next_u64 / fill_bytes(len))
+    pub calls: u64,
+}
+
+/// Observable post-state of a `Counting` generator: how much was drawn, through which entry
+/// points (hash of the call sequence), and the next word.
+#[derive(Clone, Copy, Debug, PartialEq, Eq)]
+pub struct Fp {
+    pub words: u64,
+    pub next: u64,
+    pub calls: u64,
 }
 
 impl Counting {
@@ -19,27 +30,80 @@ impl Counting {
         Self {
             inner: StdRng::seed_from_u64(seed),
             words: 0,
+            calls: 0,
         }
     }
-    /// Observable post-state: (words drawn so far, the next word).
-    pub fn fingerprint(&mut self) -> (u64, u64) {
-        let w = self.words;
-        (w, self.inner.next_u64())
+    /// Observable post-state: words drawn so far, the next word, and the call-sequence hash.
+    pub fn fingerprint(&mut self) -> Fp {
+        Fp { words: self.words, next: self.inner.next_u64(), calls: self.calls }
+    }
+    fn note(&mut self, kind: u64, len: u64) {
+        self.calls = splitmix(self.calls ^ (kind << 56) ^ len);
     }
 }
 
 impl RngCore for Counting {
     fn next_u32(&mut self) -> u32 {
         self.words += 1;
+        self.note(1, 0);
         self.inner.next_u32()
     }
     fn next_u64(&mut self) -> u64 {
         self.words += 1;
+        self.note(2, 0);
         self.inner.next_u64()
     }
     fn fill_bytes(&mut self, dst: &mut [u8]) {
         self.words += (dst.len() as u64).div_ceil(8);
+        self.note(3, dst.len() as u64);
         self.inner.fill_bytes(dst);
+    }
+}
+
+pub const DRAW_STYLES: u8 = 20;
+
+/// Draw from a generator through one of its entry points or one of rand's higher-level helpers
+/// (chosen by `style`); returns a digest of what was drawn.  Probe implementations use this so
+/// that wrappers and adapters around a generator are exercised through every path.
+pub fn draw_mix<R: rand::Rng + ?Sized>(rng: &mut R, style: u8) -> u64 {
+    use rand::seq::SliceRandom;
+    let fill = |rng: &mut R, n: usize| -> u64 {
+        let mut buf = vec![0u8; n];
+        rng.fill_bytes(&mut buf);
+        buf.iter().fold(n as u64, |h, b| splitmix(h ^ u64::from(*b)))
+    };
+    match style % DRAW_STYLES {
+        0 => rng.next_u64(),
+        1 => u64::from(rng.next_u32()),
+        2 => fill(rng, 0),
+        3 => fill(rng, 1),
+        4 => fill(rng, 3),
+        5 => fill(rng, 4),
+        6 => fill(rng, 5),
+        7 => fill(rng, 8),
+        8 => fill(rng, 9),
+        9 => fill(rng, 16),
+        10 => fill(rng, 33),
+        11 => u64::from(rng.random_range(0..10u8)),
+        12 => u64::from(rng.random_bool(0.3)),
+        13 => {
+            let x: u128 = rng.random();
+            (x as u64) ^ ((x >> 64) as u64)
+        }
+        14 => rng.random::<f64>().to_bits(),
+        15 => {
+            let mut v = [1u8, 2, 3, 4, 5, 6, 7];
+            v.shuffle(rng);
+            v.iter().fold(0u64, |h, b| h * 8 + u64::from(*b))
+        }
+        16 => u64::from(rng.random::<u16>()),
+        17 => {
+            let mut a = [0u8; 3];
+            rng.fill(&mut a);
+            u64::from(a[0]) << 16 | u64::from(a[1]) << 8 | u64::from(a[2])
+        }
+        18 => rng.random_range(0..=u64::MAX - 3),
+        _ => fill(rng, 2) ^ rng.next_u64() ^ u64::from(rng.next_u32()),
     }
 }
 
